@@ -332,7 +332,7 @@ def run_one(case, tally):
                 except OSError:
                     pass
         witness = None
-        if kind in ("inflight_short", "inflight_long") and case["trigger"] == "callable":
+        if kind in ("inflight_short", "inflight_long", "h2_idle", "h2_open_stream") and case["trigger"] == "callable":
             # an idle keep-alive connection whose closure tells the client, causally, that the worker has begun its shutdown
             witness = h.connect()
             if witness is not None:
@@ -357,10 +357,13 @@ def run_one(case, tally):
             # has begun, and from then on no connection may be accepted
             d, eof = recv_all(witness, timeout=2.0)
             witness.close()
-            if eof:
+            seen["witness_closed"] = eof
+            if eof and kind in ("h2_idle", "h2_open_stream"):
+                tr.ev("client", "witness-closed")  # only the witness is needed here: from now on the server refuses new streams
+            elif eof:
                 tr.ev("client", "witness-closed")
                 mark = len(tr.events)
-                c = h.connect(timeout=0.5)
+                c = h.connect(timeout=0.5) if kind in ("inflight_short", "inflight_long") else None
                 if c is not None:
                     try:
                         c.sendall(b"GET /during-grace HTTP/1.1\r\nHost: h\r\n\r\n")
@@ -370,7 +373,7 @@ def run_one(case, tally):
                     c.close()
                 seen["during_grace"] = [e for e in tr.events[mark:] if (e[2] == "net" and e[3] == "accept") or (e[2] == "srv" and e[3] == "tcpserver")
                                         or (e[2] == "app" and e[3] == "start" and e[4]["scope"].get("path") == "/during-grace")]
-            else:
+            elif kind in ("inflight_short", "inflight_long"):
                 seen["during_grace"] = None
         if kind == "h2_two_inflight":
             time.sleep(0.2)
@@ -500,7 +503,8 @@ def run_one(case, tally):
     if seen.get("new_conn_served"):
         findings.append({"clause": "no-new-work", "sig": "C15.new-connection-served-after-trigger/%s" % be, "backend": be,
                          "detail": "a connection opened after the shutdown trigger was accepted and served"})
-    after = [e for e in ev if e[2] == "app" and e[3] == "start" and e[4]["scope"].get("path") in ("/after-trigger", "/new-stream")]
+    after = [e for e in ev if e[2] == "app" and e[3] == "start" and e[4]["scope"].get("path") in (
+        ("/after-trigger", "/new-stream") if seen.get("witness_closed", True) else ("/after-trigger",))]
     if after:
         findings.append({"clause": "no-new-work", "sig": "C15.new-request-started-after-trigger/%s" % be, "backend": be,
                          "detail": "application started for %r after the trigger" % after[0][4]["scope"].get("path")})
@@ -534,7 +538,11 @@ def run_one(case, tally):
                                            "but no GOAWAY was ever sent"})
             elif not eof:
                 tally.notes["h2-two-inflight-not-closed-within-observation"] += 1
-    if kind in ("h2_idle", "h2_open_stream"):
+    if kind in ("h2_idle", "h2_open_stream") and case["trigger"] == "callable" and not seen.get("witness_closed"):
+        # the closing of the listener precedes, by a few scheduler steps, the moment from which new streams are refused (trio); only the
+        # server's closing of an idle connection proves that moment has passed, and it was not observed in time
+        tally.inconclusive["witness-connection-not-closed"] += 1
+    elif kind in ("h2_idle", "h2_open_stream"):
         tally.clause("h2-refused")
         for goaway, rst3, eof, hdr3 in seen.get("h2", []):
             if hdr3:
